@@ -16,7 +16,7 @@ RULE = ('seeded generator: non-negative images 1..40 per side of any aspect rati
         'sample and extent > 0.')
 ASSUMPTIONS = ['a reference convolution whose minimum is above -1e-12*max counts as non-negative']
 PLAN = {'quick': {'gen': 8}, 'thorough': {'gen': 16, 'tests': 1, 'docs': 1}}
-REQUIRED_BUCKETS = ['img:reduced-precision', 'angle:numpy-integer', 'img:faint', 'img:bright', 'pixel', 'jitter', 'smear', 'shape:square', 'shape:nonsquare', 'shape:odd', 'shape:even', 'img:smooth',
+REQUIRED_BUCKETS = ['img:all-zero', 'extent:numpy-scalars', 'img:reduced-precision', 'angle:numpy-integer', 'img:faint', 'img:bright', 'pixel', 'jitter', 'smear', 'shape:square', 'shape:nonsquare', 'shape:odd', 'shape:even', 'img:smooth',
                     'img:spiky', 'conv:nonneg', 'extent:0', 'translate', 'units', 'sequence', 'img:integer']
 REQUIRED_ANCHORS = ['probe:pixel', 'probe:jitter', 'probe:smear']
 REQUIRED_ORACLES = ['blur:shape', 'blur>=0', 'blur=conv', 'blur:total', 'translate', 'identity', 'units', 'homogeneous']
@@ -28,9 +28,9 @@ def transfer(kind, shape, p):
     if kind == 'pixel':
         return np.sinc(fx * p['oversample']) * np.sinc(fy * p['oversample'])
     if kind == 'jitter':
-        sig = p['scale'] / p['pixelscale'] * p['oversample']
+        sig = float(p['scale']) / float(p['pixelscale']) * float(p['oversample'])
         return np.exp(-2 * np.pi ** 2 * sig ** 2 * (fx ** 2 + fy ** 2))
-    d = p['distance'] / p['pixelscale'] * p['oversample']
+    d = float(p['distance']) / float(p['pixelscale']) * float(p['oversample'])
     a = np.radians(float(p['angle']))      # (np.radians of a small NumPy integer is evaluated in half precision)
     return np.sinc(d * (fx * np.cos(a) + fy * np.sin(a)))
 
@@ -71,10 +71,8 @@ def make_oracle(kind):
         if out.shape != img.shape:
             return
         if not np.all(np.isfinite(out)):
-            if np.sum(img) == 0:
-                ctx.skip('all-zero image (0/0 in the renormalisation)')
-                return
-            ctx.check(False, 'blur>=0', f'{kind}|non-finite', 'blur returned non-finite values', wit)
+            # (an all-zero frame - a dark frame, a slice with zero weight - is a non-negative image like any other: it stays zero)
+            ctx.check(False, 'blur>=0', f'{kind}|non-finite' + ('|zero-frame' if np.sum(img) == 0 else ''), 'blur returned non-finite values', wit)
             return
         ctx.check(float(out.min()) >= 0.0, 'blur>=0', f'{kind}|negative', 'blur returned a negative value', wit)
         if img.min() < 0:
@@ -98,6 +96,22 @@ def make_oracle(kind):
                       f'{kind} does not keep the total signal although the convolution is non-negative', wit,
                       scale=1e-10 * prec * (img.size if prec > 1 else 1) * max(S, 1e-300) + 4 * img.size * im)
     return oracle
+
+
+def narrow_scalars(ctx, lentil, rng):
+    """Extents and pixel scales handed over as single / half precision NumPy scalars are the same numbers as Python floats."""
+    for i in range(6):
+        a = rng.random((7, 10)) + 0.1
+        ctx.case({'narrow-scalars': i}, ['extent:numpy-scalars'])
+        for T in (np.float32, np.float16):
+            try:
+                ds = float(np.abs(lentil.smear(a, T(10), 30, pixelscale=T(3)) - lentil.smear(a, 10 / 3, 30)).max())
+                dj = float(np.abs(lentil.jitter(a, T(10), pixelscale=T(3)) - lentil.jitter(a, 10 / 3)).max())
+                ctx.check(ds <= 1e-10 and dj <= 1e-10, 'units', f'units|numpy-scalars|{np.dtype(T).name}',
+                          'an extent and pixel scale given as NumPy single / half precision scalars blur differently from the same numbers '
+                          'as Python floats', {'type': np.dtype(T).name, 'smear': ds, 'jitter': dj})
+            except Exception as e:
+                ctx.check(False, 'units', f'units|numpy-scalars|raises={type(e).__name__}', str(e), {})
 
 
 def install(ctx, lentil):
@@ -125,6 +139,7 @@ def image(rng, shape, smooth):
 
 def workload(ctx, lentil):
     rng = ctx.rng
+    narrow_scalars(ctx, lentil, rng)
     n = ctx.count(150, 1200)
     hi = 40 if ctx.tier == 'quick' else 72
     for i in range(n):
@@ -139,12 +154,15 @@ def workload(ctx, lentil):
         mag = 0
         if i % 4 == 3:
             # absolute magnitude is a matter of units (irradiance of a faint star in W, photon counts of a bright one)
-            mag = int(rng.integers(-40, 31))
+            mag = int(rng.integers(-40, 31)) if i % 8 != 7 else int(rng.choice([-200, -160, 158, 250]))
             img = img * 10.0 ** mag
         if i % 11 == 5 and mag == 0:
             # frames in half / single precision (totals beyond the largest half-precision number are ordinary)
             img = (img * (1.0 if img.max() < 6e4 else 6e4 / img.max())).astype([np.float16, np.float32][i % 2])
             ctx.bucket('img:reduced-precision')
+        if i % 29 == 11:
+            img = np.zeros(shape)                       # a dark frame
+            ctx.bucket('img:all-zero')
         os_ = int(rng.integers(1, 7))
         ps = float(rng.uniform(2e-6, 2e-5)) if rng.random() < 0.5 else 1
         zero = rng.random() < 0.12
